@@ -111,14 +111,15 @@ def extract(config="default", verbose=True):
     fcntl.flock(lock, fcntl.LOCK_EX)
     try:
         h = source_hash()
-        facts_dir = os.path.join(CACHE, "facts", f"{h}-{config}")
+        rtag = "repo" if src_root() == "/repo" else hashlib.sha256(src_root().encode()).hexdigest()[:8]
+        facts_dir = os.path.join(CACHE, "facts", f"{h}-{rtag}-{config}")
         marker = os.path.join(facts_dir, "OK")
         if not os.path.exists(marker):
             # forget older extractions of this configuration
             fdir = os.path.join(CACHE, "facts")
             if os.path.isdir(fdir):
                 for d in os.listdir(fdir):
-                    if d.endswith("-" + config):
+                    if d.endswith(f"-{rtag}-{config}"):
                         shutil.rmtree(os.path.join(fdir, d), ignore_errors=True)
             os.makedirs(facts_dir, exist_ok=True)
             t0 = time.time()
